@@ -187,7 +187,7 @@ def r3(ctx):
     P = ctx.P
     g = R.Geo(P)
     eng = T.Engine(P, opaque={"chess_bitboard::pos::Pos::rank", "chess_bitboard::pos::Pos::file"})
-    pos, a, b = ("param", 0, "pos"), ("param", 0, "a"), ("param", 1, "b")
+    pos, a, b = ("param", 0, "a0"), ("param", 0, "a0"), ("param", 1, "a1")
 
     def nest(table, *idx):
         t = _static(table)
@@ -210,7 +210,7 @@ def r3(ctx):
         ctx.ob(f"accessor {fn}", rets == {want}, f"{fn} returns {[T.show(r)[:200] for r in rets]}; expected {T.show(want)}", site=P.body(key).get("def_span"), sample=T.show(want))
 
     # pawn helpers, per colour
-    color, occ = ("param", 1, "color"), ("field", ("param", 2, "all_pieces"), "0")
+    color, occ = ("param", 1, "a1"), ("field", ("param", 2, "a2"), "0")
     W, B = g.color[0], g.color[1]
     for fn in ("pawn_attacks", "pawn_attacks_moves", "pawn_quiets", "pawn_moves"):
         key = "chess_lookup::" + fn
